@@ -24,6 +24,11 @@ func main() {
 	if v := os.Getenv("VERIF_DIR"); v != "" {
 		verifDir = v
 	}
+	if v := os.Getenv("VERIF_REPO"); v != "" {
+		// development aid only (running against a scratch worktree); the
+		// registered commands never set it
+		repoDir = v
+	}
 	switch os.Args[1] {
 	case "check":
 		os.Exit(cmdCheck(os.Args[2:]))
